@@ -448,6 +448,9 @@ func c13Expected(pos string, v c13V) string {
 		}
 		return v.String()
 	}
+	if v.T == "string" && v.S == "false" {
+		return "false" // the engine's truthiness rule takes the text "false" for false, in every position (C03)
+	}
 	return fmt.Sprint(v.truthy())
 }
 
@@ -875,6 +878,13 @@ func init() {
 			emit(&c13Case{Part: "pipe", Expr: "isbig(n)", Shape: "call", Want: "bool:true"})
 			emit(&c13Case{Part: "pipe", Expr: "n | . > 3 ? 'big' : 'small'", Shape: "pipe-dot-expr", Want: "string:big"})
 			emit(&c13Case{Part: "pipe", Expr: "n | double | . > 3", Shape: "pipe-dot-expr", Want: "bool:true"})
+			for _, e := range [][2]string{
+				{"k | . > 3 ? 'big' : 'small'", "string:small"}, {"s | upper | . + 'x'", "string:STRx"}, {"n | (. + 1) * 2", "int:12"}, {"n | . > 3 || b", "bool:true"}, {"k | . > 3 || b", "bool:false"},
+				{"m | .k == 'mk'", "bool:true"}, {"st | .tag == 'SF'", "bool:true"}, {"n | double | . + k", "int:12"}, {"n | . * 2 | double", "int:20"}, {"f | . > 1.25", "bool:true"}, {"l[0] | . + 0.5", "float:10.5"},
+				{"s | . == 'a|.b'", "bool:false"}, {"n | . - 1 | . - 1", "int:3"}, {"n | . >= 5 && t", "bool:true"},
+			} {
+				emit(&c13Case{Part: "pipe", Expr: e[0], Shape: "pipe-dot-expr", Want: e[1]})
+			}
 			// string literals that contain operator text
 			for _, e := range []struct{ expr, want string }{
 				{`eq3 == 'a===b'`, "bool:true"}, {`eq3 === 'a===b'`, "bool:true"}, {`eq3 == "a==b"`, "bool:false"}, {`ne3 == 'a!==b'`, "bool:true"}, {`ne3 !== 'a!==b'`, "bool:false"},
